@@ -79,6 +79,7 @@ func runC10(c *Ctx) {
 	c10FirstSampleMarker(c, lAdd)
 	c10FirstSampleMarker(c, mAdd)
 	c10CloseDivisions(c, mClose)
+	c10PerSecondGuard(c, mClose)
 	c10SuccessRange(c)
 	c10Report(c)
 }
@@ -1011,6 +1012,111 @@ func keysOf(m map[string]bool) []string {
 	}
 	sort.Strings(out)
 	return out
+}
+
+// c10PerSecondGuard: rate and throughput are counts divided by elapsed seconds only when the attack
+// lasted longer than an instant. That decision is taken on Duration alone (Wait > 0 with
+// Duration == 0 — a single result, or results sharing one timestamp — must not make throughput
+// success/Wait): every division by a Seconds() value reachable from Close is dominated by a `> 0`
+// test on Duration, in its own function or, when the test is on a parameter, at every call site.
+func c10PerSecondGuard(c *Ctx, mClose *ssa.Function) {
+	const rule = "whether Rate and Throughput are divided by elapsed seconds is decided by Duration > 0 alone: every division by a time.Duration.Seconds() value reachable from Close is dominated by a > 0 test whose subject is Duration"
+	key := "per-second-guard:(*lib.Metrics).Close"
+	isDurationField := func(v ssa.Value) bool {
+		v = stripConv(v)
+		if call, ok := v.(*ssa.Call); ok && callName(&call.Call) == "(time.Duration).Seconds" {
+			v = stripConv(call.Call.Args[0])
+		}
+		d := describeVal(v)
+		return strings.HasSuffix(d, ".Duration") && !strings.Contains(d, "(") && !strings.Contains(d, "+")
+	}
+	subjectOf := func(v ssa.Value) ssa.Value {
+		v = stripConv(v)
+		if call, ok := v.(*ssa.Call); ok && callName(&call.Call) == "(time.Duration).Seconds" {
+			return stripConv(call.Call.Args[0])
+		}
+		return v
+	}
+	positiveFacts := func(b *ssa.BasicBlock) []ssa.Value {
+		var out []ssa.Value
+		withoutInline(func() {
+			for _, f := range factsAt(b) {
+				cmp, ok := f.Cond.(*ssa.BinOp)
+				if !ok {
+					continue
+				}
+				if z, isZ := constInt(cmp.Y); isZ && z == 0 && (cmp.Op == token.GTR && f.Val || cmp.Op == token.LEQ && !f.Val) {
+					out = append(out, cmp.X)
+				}
+			}
+		})
+		return out
+	}
+	singleSite(c.P, mClose) // builds the call-site index
+	n := 0
+	var bad []ssa.Instruction
+	var sites []string
+	for _, g := range inPackageCallees([]*ssa.Function{mClose}) {
+		eachInstr(g, func(i ssa.Instruction) {
+			bo, ok := i.(*ssa.BinOp)
+			if !ok || bo.Op != token.QUO {
+				return
+			}
+			if !flowsFrom(bo.Y, func(v ssa.Value) bool {
+				call, isCall := v.(*ssa.Call)
+				return isCall && callName(&call.Call) == "(time.Duration).Seconds"
+			}) {
+				return
+			}
+			n++
+			sites = append(sites, c.at(bo))
+			good := false
+			for _, s := range positiveFacts(bo.Block()) {
+				if isDurationField(s) {
+					good = true
+					break
+				}
+				// the test is on a parameter: every call site passes Duration there, or sits under a Duration > 0 test itself
+				p, isP := subjectOf(s).(*ssa.Parameter)
+				if !isP || g == mClose {
+					continue
+				}
+				idx := -1
+				for k, q := range g.Params {
+					if q == p {
+						idx = k
+					}
+				}
+				all := idx >= 0 && len(siteIndex[g]) > 0
+				for _, cs := range siteIndex[g] {
+					okSite := idx < len(cs.Common().Args) && isDurationField(cs.Common().Args[idx])
+					for _, s2 := range positiveFacts(cs.Block()) {
+						if isDurationField(s2) {
+							okSite = true
+						}
+					}
+					if !okSite {
+						all = false
+					}
+				}
+				if all {
+					good = true
+					break
+				}
+			}
+			if !good {
+				bad = append(bad, bo)
+			}
+		})
+	}
+	switch {
+	case n == 0:
+		c.Undecided(key, rule, "no division by elapsed seconds found under Close", c.fnAt(mClose))
+	case len(bad) > 0:
+		c.Fail(key, rule, "a count is divided by elapsed seconds under a test that is not Duration > 0 (e.g. on Duration+Wait): a single result, or results sharing one timestamp, would report success/Wait as throughput", c.ats(bad)...)
+	default:
+		c.Pass(key, rule, fmt.Sprintf("%d divisions by elapsed seconds, all under Duration > 0", n), sites...)
+	}
 }
 
 func c10CloseDivisions(c *Ctx, mClose *ssa.Function) {
